@@ -6,6 +6,8 @@ verus! {
 //@ shims features git_config cli config
 //@ broadcast vax::vax_group vstd::std_specs::hash::group_hash_axioms axiom_string_obeys_key_model axiom_borrowed_string_keys axiom_borrowed_string_values axiom_str_key_inverse axiom_to_string_string
 use vstd::std_specs::hash::*;
+pub assume_specification<T, A: std::alloc::Allocator>[ <Vec<T, A> as From<std::collections::VecDeque<T, A>>>::from ](v: std::collections::VecDeque<T, A>) -> (r: Vec<T, A>)
+    ensures r@ == v@;
 
 /// ASSUMED: `String`'s `Hash` and `Eq` agree, so vstd's HashMap model applies to `HashMap<String, _>`.
 pub broadcast axiom fn axiom_string_obeys_key_model()
@@ -125,6 +127,65 @@ pub open spec fn is_prefix_bytes(s: &str, n: usize) -> bool {
 //@|         user_supplied("minus_emph_style"@, arg_matches) ==> final(opt).minus_emph_style == old(opt).minus_emph_style,  // @C13,C12:a.minus.emph.style.given.on.the.command.line.is.kept
 //@|         !is_prefix("normal "@, old(opt).minus_style@) ==> final(opt).minus_style == old(opt).minus_style,  // @C12:only.a.normal.minus.style.is.turned.into.syntax
 //@|         final(opt).features == old(opt).features && final(opt).no_gitconfig == old(opt).no_gitconfig,
+
+
+// ---------------------------------------------------------------- options/set.rs gather_features: the main [delta] section
+/// `impl GitConfigGet for String` (its body is verified above as `git_config_get_string`); here only its value matters
+pub uninterp spec fn gc_string(key: Seq<char>, gc: &GitConfig) -> Option<String>;
+impl GitConfigGet for String {
+    open spec fn gc_get_spec(key: Seq<char>, gc: &GitConfig) -> Option<String> { gc_string(key, gc) }
+    #[verifier::external_body]
+    fn git_config_get(key: &str, git_config: &GitConfig) -> (r: Option<String>) { unimplemented!() }
+}
+/// `split_feature_string`: the words of a features string from the last listed to the first (`split_whitespace().rev()`)
+#[verifier::external_body]
+pub fn split_feature_string<'a>(features: &'a str) -> (r: Vec<&'a str>)
+    ensures r@.len() == split_ws(features@).len(), forall|i: int| 0 <= i < r@.len() ==> (#[trigger] r@[i])@ == split_ws(features@)[split_ws(features@).len() - 1 - i],
+{ unimplemented!() }
+/// the two gatherers (recursive; VecDeque, iterator chains): what they do to the list is a function of their arguments
+pub uninterp spec fn gfr_spec(fs: Seq<String>, feature: Seq<char>, builtin: Map<String, BuiltinFeature>, opt: &cli::Opt, gc: &GitConfig) -> Seq<String>;
+pub uninterp spec fn flags_spec(fs: Seq<String>, key: Seq<char>, builtin: Map<String, BuiltinFeature>, opt: &cli::Opt, gc: &GitConfig) -> Seq<String>;
+#[verifier::external_body]
+pub fn gather_features_recursively(feature: &str, features: &mut VecDeque<String>, builtin_features: &HashMap<String, BuiltinFeature>, opt: &cli::Opt, git_config: &GitConfig)
+    ensures final(features)@ == gfr_spec(old(features)@, feature@, builtin_features@, opt, git_config),
+{ unimplemented!() }
+#[verifier::external_body]
+pub fn gather_builtin_features_from_flags_in_gitconfig(git_config_key: &str, features: &mut VecDeque<String>, builtin_features: &HashMap<String, BuiltinFeature>, opt: &cli::Opt, git_config: &GitConfig)
+    ensures final(features)@ == flags_spec(old(features)@, git_config_key@, builtin_features@, opt, git_config),
+{ unimplemented!() }
+/// the features listed in the main section, gathered from the last listed to the first
+pub open spec fn gather_listed(fs: Seq<String>, listed: Seq<Seq<char>>, k: int, builtin: Map<String, BuiltinFeature>, opt: &cli::Opt, gc: &GitConfig) -> Seq<String>
+    decreases k
+{
+    if k <= 0 || k > listed.len() { fs } else {
+        gfr_spec(gather_listed(fs, listed, k - 1, builtin, opt, gc), listed[listed.len() - k], builtin, opt, gc)
+    }
+}
+/// C13: the features named in the main section come first (they are pushed to the front later than nothing else
+/// but the flags), the feature FLAGS of the main section are gathered after them - so a listed feature outranks a flag
+pub open spec fn main_section_spec(fs: Seq<String>, builtin: Map<String, BuiltinFeature>, opt: &cli::Opt, gc: &Option<GitConfig>) -> Seq<String> {
+    match gc {
+        None => fs,
+        Some(g) => {
+            let listed = if opt.features is None && gc_get::<String>(g, "delta.features"@) is Some {
+                let ws = split_ws(gc_get::<String>(g, "delta.features"@)->0@);
+                gather_listed(fs, ws, ws.len() as int, builtin, opt, g)
+            } else { fs };
+            flags_spec(listed, "delta"@, builtin, opt, g)
+        }
+    }
+}
+//@ region src/options/set.rs gather_features
+//@sig pub fn gather_features_main_section(opt: &mut cli::Opt, features_in: VecDeque<String>, builtin_features: &HashMap<String, BuiltinFeature>, git_config: &Option<GitConfig>) -> (r: Vec<String>)
+//@fromafter <<<gather_builtin_features_recursively("side-by-side", &mut features, builtin_features, opt); }>>>
+//@to <<<Vec::<String>::from(features)>>>
+//@| ensures r@ == main_section_spec(features_in@, builtin_features@, old(opt), git_config),  // @C13:main.section.features.are.gathered.before.its.feature.flags.so.they.outrank.them
+//@|         *final(opt) == *old(opt),
+//@before <<<if let Some(git_config) = git_config {>>>| let mut features = features_in;
+//@rewrite <<<for feature in split_feature_string(&feature_string) {>>> => <<<for feature in it: split_feature_string(&feature_string) {>>>
+//@loop 1| invariant *opt == *old(opt), it.seq().len() == split_ws(feature_string@).len(),
+//@loop 1|     forall|i: int| 0 <= i < it.seq().len() ==> (#[trigger] it.seq()[i])@ == split_ws(feature_string@)[split_ws(feature_string@).len() - 1 - i],
+//@loop 1|     features@ == gather_listed(features_in@, split_ws(feature_string@), it.index@, builtin_features@, opt, git_config),
 
 // ---------------------------------------------------------------- options/get.rs
 //@ type src/options/option_value.rs OptionValue noderive
